@@ -177,14 +177,19 @@ def build_form(case, with_heur=True):
                 o = m.get_path_based(make_feasible=False)
             else:
                 o = m.get_sequence_based(make_feasible=False, strict=case.get("strict", True))
+        except Exception as e:  # noqa
+            # the getter itself cannot configure a formulation for this MIRP (e.g. no travel arc of positive time: min() of nothing);
+            # there is no object to speak about (since fix ff3f4a7 nothing half-built is kept either)
+            if isinstance(e, ValueError) and ("min()" in str(e) or "max()" in str(e)):
+                raise core.SkipCase("mirp-getter-raised:no-travel-arc")
+            # any other exception out of a getter on a well-formed MIRP is not expected (reported as a broken correspondence)
+            raise RuntimeError("the MIRP getter raised: " + repr(e)[:160])
+        try:
             if heur is not None and with_heur:
                 # (a dyadic high cost instead of the getter's own estimate, which is not exactly representable)
                 o.make_feasible(VU.val(heur))
             return o, ("ok" if heur is not None and with_heur else None)
         except Exception as e:  # noqa
-            o = {"arc": m.abrp, "path": m.pbrp, "seq": m.sbrp}[form]
-            if o is None:
-                raise RuntimeError("the MIRP getter raised before creating the formulation object: " + repr(e)[:160])
             return o, core.err_kind(e) + ":" + repr(e)[:120]
     if case.get("via") == "wrapper":
         spec = case["spec"]
